@@ -201,6 +201,27 @@ CHECKS['C11'] = ('exploration', 'enum',
     'parse_url_or_log and urljoin_safe never raise.',
     'alphabets as stated; lru_cache cleared per shard.', '5/C11')
 
+CHECKS['C15'] = ('exploration', 'enum',
+    'bounded-exhaustive enumeration of file-naming configurations x URLs x Content-Disposition '
+    'values through the real PathNamer and writer session',
+    'All 2880 PathNamer configurations x http/ftp URLs with 1-2 (3 thorough) path segments from 25 '
+    'hostile names (dots, encoded dots/slashes/backslashes, NUL, newline, trailing dot/space, '
+    'device names, 300 characters, non-ASCII) and 21 Content-Disposition values through the real '
+    'writer session: every component below the prefix is a single non-empty name, never "." or '
+    '"..", no separator, no C0 unless allowed; realpath stays below the prefix.',
+    'POSIX path semantics; namer exceptions are counted, not flagged.', '5/C15')
+CHECKS['C17'] = ('model_checking', 'bytestream',
+    'bounded-exhaustive injection enumeration, exhaustive segmentation enumeration of replies and '
+    'exhaustive event-order exploration of transfer completion on the real FTP client',
+    'Every byte value percent-encoded at three positions of user name, password and path (file and '
+    'listing requests) plus CR/LF/NUL/SP pairs: each write is one CRLF-terminated line and the '
+    'server sees exactly the expected verbs; 11 reply shapes under every segmentation (all 2^(n-1) '
+    'for short ones) equal the one-shot and reference assembly; five server endings x every order '
+    'of data bytes, data EOF, completion reply and control EOF: success only after data EOF and '
+    '226.',
+    'scripted server splits input at CRLF and bare LF; reply reference restricted to shapes where '
+    'it agrees with RFC 959.', '5/C17')
+
 NOT_YET = {}
 
 
